@@ -79,3 +79,43 @@ pub proof fn lemma_finite_memory_pfe(h1: Seq<T>, h2: Seq<T>, n: nat, m: nat)
         }
     }
 }
+// ---- PFE over ANY moving average M: the state of M after history h is M's own run over the ratio sequence ps(h); if M forgets everything
+// older than its last m deliveries (hypothesis: the finite-memory statement of M, e.g. lemma_finite_memory_* of the average used), PFE over M
+// forgets everything older than its last N + m - 1 inputs
+pub proof fn lemma_run_pfe_generic<M: View>(ma0: M::S, h: Seq<T>, n: nat)
+    requires n >= 3
+    ensures ({ let st = run::<PolarizedFractalEfficiency<Echo, M>>((None::<T>, PolarizedFractalEfficiencyOwn::<M> { n: n, w: Seq::<T>::empty(), o: None::<T>, ma: ma0 }), h);
+               st.0 == echo_of(h) && st.1.n == n && st.1.w == win(h, n) && st.1.ma == run::<M>(ma0, pfe_ps(h, n))
+               && st.1.o == (if pfe_ps(h, n).len() == 0 { None::<T> } else { M::out(run::<M>(ma0, pfe_ps(h, n))) }) })
+    decreases h.len()
+{
+    if h.len() > 0 {
+        lemma_run_pfe_generic::<M>(ma0, h.drop_last(), n); lemma_win_step(h, n);
+        lemma_pfe_ps_len(h, n); lemma_pfe_ps_len(h.drop_last(), n);
+        if h.len() >= n {
+            let ps = pfe_ps(h, n);
+            assert(ps.drop_last() =~= pfe_ps(h.drop_last(), n));
+        }
+    } else { assert(win(h, n) =~= Seq::<T>::empty()); }
+}
+pub proof fn lemma_finite_memory_pfe_generic<M: View>(ma0: M::S, h1: Seq<T>, h2: Seq<T>, n: nat, m: nat)
+    requires n >= 3, m >= 1, h1.len() >= n + m - 1, h2.len() >= n + m - 1, suffix(h1, (n + m - 1) as nat) == suffix(h2, (n + m - 1) as nat),
+             forall|p1: Seq<T>, p2: Seq<T>| p1.len() >= m && p2.len() >= m && suffix(p1, m) == suffix(p2, m) ==> M::out(#[trigger] run::<M>(ma0, p1)) == M::out(#[trigger] run::<M>(ma0, p2)),
+    ensures ({ let i = (None::<T>, PolarizedFractalEfficiencyOwn::<M> { n: n, w: Seq::<T>::empty(), o: None::<T>, ma: ma0 });
+               PolarizedFractalEfficiency::<Echo, M>::out(run::<PolarizedFractalEfficiency<Echo, M>>(i, h1)) == PolarizedFractalEfficiency::<Echo, M>::out(run::<PolarizedFractalEfficiency<Echo, M>>(i, h2)) })
+{
+    lemma_run_pfe_generic::<M>(ma0, h1, n); lemma_run_pfe_generic::<M>(ma0, h2, n);
+    let p1 = pfe_ps(h1, n); let p2 = pfe_ps(h2, n); let k = (n + m - 1) as nat;
+    lemma_pfe_ps_len(h1, n); lemma_pfe_ps_len(h2, n);
+    assert(p1.len() >= m && p2.len() >= m);
+    assert(suffix(p1, m) =~= suffix(p2, m)) by {
+        assert forall|i: int| 0 <= i < m implies suffix(p1, m)[i] == suffix(p2, m)[i] by {
+            let j1 = p1.len() - m + i; let j2 = p2.len() - m + i;
+            lemma_pfe_ps_index(h1, n, j1); lemma_pfe_ps_index(h2, n, j2);
+            let c = m - 1 - i;
+            assert(n + j1 == h1.len() - c && n + j2 == h2.len() - c);
+            lemma_take_win_suffix(h1, h2, n, k, c);
+            assert(suffix(p1, m)[i] == p1[j1]); assert(suffix(p2, m)[i] == p2[j2]);
+        }
+    }
+}
